@@ -488,11 +488,15 @@ def run(ctx, spec):
     names = ["x", "data", "x_y", "set.v2", "goodsort", "badsort", "a.good.b", "good_bad", "len3", "x.json"]
     for _ in range(spec["files"]):
         ops = []
+        written = []
         for _ in range(rng.randint(3, 12)):
             c = rng.random()
             name, n = rng.choice(names), rng.randint(0, 4)
+            if written and c >= 0.4 and rng.random() < 0.75:
+                name, n = rng.choice(written)  # reads, corruptions and deletions mostly aim at files that exist
             gb = rng.choice(["good", "bad"])
             if c < 0.4:
+                written.append((name, n))
                 ops.append(["write", n, rng.choice(list(PROPS)), name])
             elif c < 0.75:
                 ops.append(["read", name, gb, n])
